@@ -617,6 +617,16 @@ def hsDeliver (h : Hs) : HsOp → Hs
 /-- one delivered message followed by ticks until quiescence -/
 def hsStep (h : Hs) (o : HsOp) : Hs := hsSettle (hsDeliver h o)
 
+/-- `findRequestingGPUs` followed by the two nested loops of `processShootdownCompleteRsp` and
+    `preparePageMigrationRspToMMU` (as repaired: GPU order, not Go map order): the GPUs `1..ngpu`
+    that have an entry in `GPUReqToVAddrMap` (`m` lists the entries of the Go map in any order), each
+    with its pages in slice order; the result pairs the 0-based GPU id with the page address -/
+def migOrder (ngpu : Nat) (m : List (Nat × List Nat)) : List (Nat × Nat) :=
+  (List.range ngpu).flatMap fun i =>
+    match m.lookup (i + 1) with
+    | some vs => vs.map fun v => (i, v)
+    | none => []
+
 /-! ## line protocol -/
 
 /-- renumber `#<raw>` by first appearance (fuel = length of the text) -/
@@ -759,6 +769,27 @@ def handleHs (cfg : List String) (rest : List String) : String :=
       joinWith " " r.2.reverse
   | _, _, _ => "bad"
 
+/-! ### `hsmap` lines: the page-per-GPU map of one request -/
+
+/-- `g:i,j,k` (pages are named by allocation index; `g:-` = an entry without pages) -/
+def parseEntry (s : String) : Option (Nat × List Nat) :=
+  match splitTrim s ":" with
+  | [g, l] => do pure (← g.toNat?, ← natList? l)
+  | _ => none
+
+/-- the page list of the shootdown command, the migrate commands (0-based GPU : page) and the page
+    list of the reply to the MMU -/
+def handleHsMap (cfg : List String) (rest : List String) : String :=
+  match kvNat? cfg "ngpu" with
+  | some ngpu =>
+    match rest.mapM parseEntry with
+    | none => "bad"
+    | some m =>
+      let o := migOrder ngpu m
+      let pl := joinWith "," (o.map fun x => toString x.2)
+      s!"sd={pl} cmd={joinWith "," (o.map fun x => s!"{x.1}:{x.2}")} rsp={pl}"
+  | none => "bad"
+
 def handle (line : String) : String :=
   match splitTrim line ";" with
   | [] => "bad"
@@ -767,6 +798,7 @@ def handle (line : String) : String :=
     | "c19" :: "mig" :: cfg => handleMig cfg rest
     | "c19" :: "prep" :: cfg => handlePrep cfg rest
     | "c19" :: "hs" :: cfg => handleHs cfg rest
+    | "c19" :: "hsmap" :: cfg => handleHsMap cfg rest
     | _ => "bad"
 
 end C19
